@@ -14,6 +14,7 @@ import ModVerif.Proofs.EditModel
 import ModVerif.Proofs.EditRefineInvRun
 import ModVerif.Proofs.EditRefineNoPanic
 import ModVerif.Proofs.EditRefineInvBulk
+import ModVerif.Proofs.EditRefineInvCheck
 namespace ModVerif.Props.C15
 open ModVerif ModVerif.EditSpec ModVerif.Modfile
 
@@ -155,6 +156,26 @@ theorem nilDeref_unreachable_partial (e : Edit.EFile) (ops : List Edit.Op) (hi :
     ∃ e' res, Edit.runOps Edit.applyMod e ops [] 0 = .done e' res ∧ Edit.Inv (Edit.cleanup e') := by
   rcases Edit.runOps_total ops e [] 0 hv hi with ⟨e', res, h⟩
   exact ⟨e', res, h, Edit.typed_eq_tree_partial2 e e' ops res hi (fun op hop => (hv op hop).1) h⟩
+
+/-- the invariant is decidable on a concrete state: `Edit.invB` is a sound Boolean test, so `Inv (load f)` can be
+    discharged by kernel evaluation for any concrete parsed file (the universally quantified
+    `parseStrict … = .ok f → Inv (load f)` is in lean/PENDING.md) -/
+theorem inv_checkable (e : Edit.EFile) (h : Edit.invB e = true) : Edit.Inv e := Edit.invB_sound e h
+
+/-- non-vacuity on PARSED files: strictly parsed go.mod files (quoted paths, a `+meta` version the parser
+    canonicalises, retract intervals, one-line and multi-line blocks, comments everywhere) satisfy the invariant after
+    `load`, and a session with valid arguments runs on them -/
+example :
+    (match parseStrict (B "go.mod") (B "// header\nmodule \"example.com/m\"\n\ngo 1.21rc1 // c\ntoolchain go1.21.0\n\nrequire \"example.com/a\" v1.0.0+meta // indirect; why\nrequire (\n\texample.com/b v1.2.3\n\t// keep\n\texample.com/a v1.1.0\n)\nretract (\n\tv1.0.0 // bad\n\t[v1.1.0, v1.2.0]\n)\nretract [v1.3.0, v1.3.0]\nreplace (\n\texample.com/a => example.com/b v1.0.0\n\texample.com/c v1.0.0 => ./x\n)\ngodebug (\n\tpanicnil=1\n\tx=y=z\n)\ntool (\n\t\"example.com/t\"\n)\nexclude (\n\ta v1.0.0\n) // trailing\n") none with
+     | .ok f =>
+       Edit.invB (Edit.load f) &&
+         (match Edit.runOps Edit.applyMod (Edit.load f)
+            [.addRequire (B "example.com/a") (B "v1.5.0"), .dropRequire (B "example.com/b"), .addExclude (B "a") (B "v1.1.0"),
+             .addReplace (B "example.com/a") [] (B "../z") [], .dropRetract (B "v1.0.0") (B "v1.0.0"), .addTool (B "example.com/u"),
+             .addGodebug (B "x") (B "1"), .sortBlocks, .cleanup] [] 0 with
+          | .done e res => res.all id && Edit.invB e
+          | _ => false)
+     | .error _ => false) = true := by decide +kernel
 
 /-- **SetRequire preserves the invariant** — when every typed requirement is live (a Cleanup has just run, as the
     property prescribes) and under `NoNestedIndirectMarker`: `setIndirect` achieves what it is asked for on every
